@@ -676,6 +676,9 @@ class IoRig:
         import bacpypes.core as bcore
         self.bcore = bcore
         rig = self
+        self.iocbs = []
+        self.qids = {}            # id(queue object) -> qid
+        self.qobjs = []           # keep them alive (ids stay unique)
 
         class StubSap(ServiceAccessPoint):
             def sap_indication(self, apdu):
@@ -683,16 +686,27 @@ class IoRig:
                 if apdu._fails:
                     raise RuntimeError("tok:%d" % TOK_FAILED)
 
+        # SieveQueue objects are numbered in CREATION order (several can be created and
+        # forgotten inside one event once callbacks re-enter): app.py looks the class up
+        # in its module globals, the rig substitutes a recording subclass there
+        import bacpypes.app as bapp
+        base = getattr(bapp.SieveQueue, "_c04_base", bapp.SieveQueue)
+
+        class RecordingSieveQueue(base):
+            _c04_base = base
+
+            def __init__(self, *a, **kw):
+                base.__init__(self, *a, **kw)
+                rig.qid(self)
+        bapp.SieveQueue = RecordingSieveQueue
         self.app = ApplicationIOController()
         self.sap = StubSap()
         bind(self.app, self.sap)
         self.addrs = [Address(10), Address(11), Address(12)]
-        self.iocbs = []
-        self.qids = {}            # id(queue object) -> qid
-        self.qobjs = []           # keep them alive (ids stay unique)
         self.outs = []
         self.events = []
         self.replies = []
+        self.script = []          # what the next completion callback will do (re-entrancy)
 
     # ---- canonical view ---------------------------------------------
     def tok(self, v):
@@ -746,7 +760,7 @@ class IoRig:
                        self.io_index(q.active_iocb) if q.active_iocb is not None else None,
                        [[int(p), self.io_index(i)] for (p, i) in q.ioQueue.queue]])
         dfr = [self.qid(args[0]) for fn, args, kw in self.bcore.deferredFns]
-        return {"io": io, "q": qs, "def": dfr}
+        return {"io": io, "q": qs, "def": dfr, "scr": len(self.script)}
 
     def _finish(self, line):
         r = {"r": "ok", "out": self.outs}
@@ -768,26 +782,41 @@ class IoRig:
             self.outs.append({"o": "raised", "k": "python:%s:%s" % (type(e).__name__, str(e)[:60])})
 
     # ---- events -----------------------------------------------------
-    def submit(self, dest, prio=0, unconf=False, fails=False):
+    def _request_io(self, dest, prio, unconf, fails):
         from bacpypes.apdu import ConfirmedRequestPDU, UnconfirmedRequestPDU
         from bacpypes.iocb import IOCB
         idx = len(self.iocbs)
+        req = (UnconfirmedRequestPDU if unconf else ConfirmedRequestPDU)(200)
+        req.pduDestination = self.addrs[dest]
+        req._io, req._fails = idx, fails
+        iocb = IOCB(req, _priority=prio) if prio else IOCB(req)
+        self.iocbs.append(iocb)
+        iocb.add_callback(self._cb)
+        self.app.request_io(iocb)
 
-        def go():
-            req = (UnconfirmedRequestPDU if unconf else ConfirmedRequestPDU)(200)
-            req.pduDestination = self.addrs[dest]
-            req._io, req._fails = idx, fails
-            iocb = IOCB(req, _priority=prio) if prio else IOCB(req)
-            self.iocbs.append(iocb)
-            iocb.add_callback(self._cb)
-            self.app.request_io(iocb)
-        self._guard(go)
+    def submit(self, dest, prio=0, unconf=False, fails=False):
+        self._guard(lambda: self._request_io(dest, prio, unconf, fails))
         return self._finish({"op": "io", "e": "submit", "dest": dest, "prio": prio,
                              "unconf": 1 if unconf else 0, "fails": 1 if fails else 0})
 
     def _cb(self, iocb):
+        """the application's completion callback: the first one that fires takes the
+        armed script and issues its operations RIGHT HERE, inside complete_io/abort_io"""
         self.outs.append({"o": "cb", "id": self.io_index(iocb), "st": int(iocb.ioState),
                           "resp": self.tok(iocb.ioResponse), "err": self.tok(iocb.ioError)})
+        ops, self.script = self.script, []
+        for op in ops:
+            if op["o"] == "submit":
+                self._request_io(op["dest"], op.get("prio", 0), bool(op.get("unconf")), bool(op.get("fails")))
+            elif op["id"] < len(self.iocbs) and self.iocbs[op["id"]] is not iocb:
+                # (never the IOCB it is called back for: aborting that one and submitting to the same
+                # destination from its own completion callback loses the new active IOCB — notes/C04.md)
+                self.iocbs[op["id"]].abort(RuntimeError("tok:%d" % op["tok"]))
+
+    def arm(self, script):
+        self.outs = []
+        self.script = [dict(o) for o in script]
+        return self._finish({"op": "io", "e": "arm", "script": [dict(o) for o in script]})
 
     def abort(self, idx, tok):
         self._guard(lambda: self.iocbs[idx].abort(RuntimeError("tok:%d" % tok)))
@@ -859,13 +888,15 @@ class IoOracle:
                 self.fail("iocb-callbacks", "IOCB #%d called back while in state %d" % (i, d[0]))
         if line["e"] == "confirm" and line["kind"] in ("ack", "err"):
             # the outcome handed to the IOCB is the confirmation that arrived, in its class
-            for o in reply["out"]:
+            for o in [x for x in reply["out"] if x["o"] == "cb"][:1]:
                 if o["o"] == "cb":
                     want = (3, line["tok"], None) if line["kind"] == "ack" else (4, None, line["tok"])
                     if (o["st"], o["resp"], o["err"]) != want:
                         self.fail("iocb-outcome", "confirmation %s/%d finished IOCB #%d as (state, response, error) = %r" % (
                             line["kind"], line["tok"], o["id"], (o["st"], o["resp"], o["err"])))
         if line["e"] in ("abort",) or line.get("fails"):
+            self.clean = False
+        if line["e"] == "arm" and any(o["o"] == "abort" or o.get("fails") for o in line["script"]):
             self.clean = False
         for q in reply["q"]:
             addr, qid, busy, active, queue = q
@@ -879,7 +910,7 @@ class IoOracle:
                 self.fail("queue-active", "active IOCB #%d of destination %d is in state %d" % (active, addr, reply["io"][active][0]))
             if self.clean and not busy and not queue and qid not in reply["def"]:
                 self.fail("queue-forgotten", "empty idle queue of destination %d is kept" % addr)
-        if line["e"] == "deferred" and reply["out"]:
+        if line["e"] == "deferred" and reply["out"] and not any(o["o"] == "cb" for o in reply["out"]):
             sent = [o["id"] for o in reply["out"] if o["o"] == "sent"]
             if len(sent) > 1:
                 self.fail("queue-advance", "one trigger sent %r" % sent)
@@ -902,6 +933,7 @@ def io_scenario(ctx, rng, label, n_events):
     ndest = rng.choice([1, 1, 2, 3])
     abort_p = rng.choice([0.0, 0.0, 0.08])
     fail_p = rng.choice([0.0, 0.0, 0.1])
+    reent = rng.choice([0.0, 0.15, 0.3])          # how often a completion callback is given work to do
     tok = [0]
 
     def do(fn, *a, **k):
@@ -915,6 +947,18 @@ def io_scenario(ctx, rng, label, n_events):
     for _ in range(n_events):
         r = rng.random()
         busy = [q for q in rig.replies[-1]["q"] if q[3] is not None] if rig.replies else []
+        if reent and rng.random() < reent and not rig.script:
+            busy_d = [q[0] for q in busy]
+            script = []
+            for _k in range(rng.choice([1, 1, 2, 3])):
+                if rng.random() < 0.75 or not rig.iocbs:
+                    d = rng.choice(busy_d) if (busy_d and rng.random() < 0.7) else rng.randrange(ndest)
+                    script.append({"o": "submit", "dest": d, "prio": rng.choice([0, 0, 1, 5]),
+                                   "unconf": 1 if rng.random() < 0.15 else 0, "fails": 1 if rng.random() < fail_p else 0})
+                else:
+                    script.append({"o": "abort", "id": rng.randrange(len(rig.iocbs) + 2), "tok": next_tok()})
+            do(rig.arm, script)
+            continue
         if r < 0.35:
             do(rig.submit, rng.randrange(ndest), prio=rng.choice([0, 0, 0, 1, 2, 5]),
                unconf=rng.random() < 0.12, fails=rng.random() < fail_p)
@@ -992,6 +1036,8 @@ def replay_io(ctx, label, events):
             r = rig.abort(ev["id"], ev["tok"])
         elif e == "confirm":
             r = rig.confirm(ev["addr"], ev["kind"], ev["tok"], cls=ev.get("cls", 0))
+        elif e == "arm":
+            r = rig.arm(ev["script"])
         else:
             r = rig.deferred()
         orc.after(rig.events[-1], r)
